@@ -46,16 +46,41 @@ def table_k3(ops, fail):
 
 def table_k4(ops, fail):
     """K4: Next() called with the transaction that created the iterator, after that
-    transaction deleted objects before Changes(): the deletion is never delivered."""
-    if "replay-does-not-converge" not in (fail.clause or ""):
+    transaction deleted objects BEFORE Changes(): the deletion is never delivered, the replay
+    keeps the object. Every key the replay has in excess of the snapshot must be explained that way
+    (deleted in the creating transaction before Changes(), iterator advanced with Next(txn) in it);
+    a deletion made after Changes() that goes missing is a different failure."""
+    import re
+    m = re.search(r"replay-does-not-converge\(replay:(.*?);snapshot:(.*?)\)", fail.clause or "")
+    if not m:
         return False
-    fresh = set()
+
+    def kv(txt):
+        return dict(x.split("=", 1) for x in txt.split(",") if "=" in x)
+    rep, snap = kv(m.group(1)), kv(m.group(2))
+    extra = {k for k in rep if k not in snap}
+    if not extra or any(rep[k] != snap[k] for k in rep if k in snap) or any(k not in rep for k in snap):
+        return False
+    explained = set()
+    predel = {}       # table -> keys deleted so far in the open txn ("*" = DeleteAll)
+    created = {}      # iterator id -> (table, keys deleted in the txn before its Changes())
     for o in ops:
         f = o.split()
-        if f[0] == "changes":
-            fresh.add(f[1])
+        if f[0] == "begin":
+            predel, created = {}, {}
+        elif f[0] == "delete" and len(f) >= 3:
+            predel.setdefault(f[1], set()).add(f[2])
+        elif f[0] == "cad" and len(f) >= 4:
+            predel.setdefault(f[1], set()).add(f[3])
+        elif f[0] == "deleteall" and len(f) >= 2:
+            predel.setdefault(f[1], set()).add("*")
+        elif f[0] == "changes" and len(f) >= 3:
+            created[f[1]] = set(predel.get(f[2], set()))
         elif f[0] in ("commit", "abort"):
-            fresh.clear()
-        elif f[0] == "next" and f[2] == "txn" and f[1] in fresh:
-            return True
-    return False
+            predel, created = {}, {}
+        elif f[0] == "next" and len(f) >= 3 and f[2] == "txn" and f[1] in created:
+            keys = created[f[1]]
+            explained |= extra if "*" in keys else (extra & keys)
+    return extra <= explained
+
+
